@@ -65,7 +65,15 @@ class RegexTransformerPipeline(BaseTransformerPipeline):
             logger.exception("%s %s", reason, file_context.file_path)
             return None
 
-        changes, updated_lines = self._apply(original_lines, file_context, results)
+        try:
+            changes, updated_lines = self._apply(original_lines, file_context, results)
+        except Exception:
+            # like the other pipelines: a transformation that raises fails this file only
+            file_context.add_failure(
+                file_context.file_path, reason := "Failed to transform file"
+            )
+            logger.exception("%s %s", reason, file_context.file_path)
+            return None
 
         if not changes:
             logger.debug("No changes produced for %s", file_context.file_path)
